@@ -130,3 +130,114 @@ for _m in API:
     c.raises = {"BaseException": []}
     c.exit_hook = make_exit(_m)
     c.assumptions.append("T-aio: loop.run_in_executor(executor, fn) runs fn once and returns / raises what fn does; T-os: equal call traces on an equal file system give equal outcomes")
+
+
+# ------------------------------------------------------------------------------------ the Lister classes
+class GlobIter(Model):
+    """what path.glob("*") returns: a lazy iterator; the OS is consulted by next()"""
+
+    model_name = "globiter"
+
+    def __init__(self, script):
+        super().__init__()
+        self.script = script
+
+    def m___next__(self, it):
+        return self.script(it, self, "next", [], {})
+
+
+def setup_lister(u):
+    it = u.it
+    mod = it.modules[PATHIO]
+    timeout = LazyOpt(it, "real", "path_timeout", lambda v: v.t > 0)
+    sync = it.call(mod.attrs["PathIO"], [], {"timeout": timeout})
+    asyn = it.call(mod.attrs["AsyncPathIO"], [], {"timeout": timeout})
+    # what the directory scan does at its 1st and 2nd step: an entry / exhausted / an OS error
+    plan = [u.choose(3, "scan-step-1"), u.choose(3, "scan-step-2")]
+    entries = [PathVal("any", None, None, opaque=z3.Const(f"p!entry{j}", models_path.OP)) for j in range(2)]
+    traces = {"cur": [], "n": 0}
+
+    def script(i, target, name, a, k):
+        traces["cur"].append((name, tuple(a)))
+        if name == "glob":
+            traces["n"] = 0
+            return GlobIter(script)
+        if name == "next":
+            step = plan[min(traces["n"], 1)]
+            traces["n"] += 1
+            if step == 0:
+                return entries[traces["n"] - 1]
+            if step == 1:
+                i.throw("StopIteration")
+            raise PyRaise(i.make_exc("OSError"))
+        raise Unsupported("fs." + name)
+
+    it.hooks["fs_call"] = script
+    path = PathVal("any", None, None, opaque=z3.Const("p!arg", models_path.OP))
+    res = {}
+
+    def run(i, a, k):
+        def body():
+            for label, obj in (("sync", sync), ("async", asyn)):
+                traces["cur"] = []
+                out = []
+                lister = i.call(i.getattr_(obj, "list"), [path], {})
+                for _ in range(2):
+                    try:
+                        out.append(("item", i.await_(i.call(i.getattr_(lister, "__anext__"), [], {}))))
+                    except PyRaise as pr:
+                        out.append(("raise", pr.exc))
+                        break
+                res[label] = (out, list(traces["cur"]))
+            return None
+
+        return Coro(body, "both-listers")
+
+    return Builtin("PathIO-vs-AsyncPathIO:list", run), [], {}, {"res": res, "entries": entries, "plan": plan, "timeout": timeout}
+
+
+def lister_exit(S, outcome):
+    it = S.it
+    ctx = it.ctx
+    res, plan, entries = S.vars["res"], S.vars["plan"], S.vars["entries"]
+    name = "PathIO-vs-AsyncPathIO.list"
+    if outcome[0] == "raise" or "sync" not in res or "async" not in res:
+        ctx.check(f"{name}/harness", z3.BoolVal(False), info=T18)
+        return
+    pio = it.modules["aioftp.errors"].attrs["PathIOError"]
+    stop = it.exc_classes["StopAsyncIteration"]
+
+    def view(out):
+        v = []
+        for kind, x in out:
+            if kind == "item":
+                v.append(("item", x))
+            else:
+                cause = x.fields.get("__cause__")
+                to = cause is not None and getattr(cause, "cls", None) is it.exc_classes["TimeoutError"]
+                v.append(("timeout",) if to else ("raise", x.cls))
+        return v
+
+    s, a = view(res["sync"][0]), view(res["async"][0])
+    # expected from the plan: entries in scan order, then StopAsyncIteration at exhaustion, PathIOError for an OS error
+    want = []
+    for j, step in enumerate(plan):
+        if step == 0:
+            want.append(("item", entries[j]))
+        else:
+            want.append(("raise", stop if step == 1 else pio))
+            break
+    ctx.check(f"{name}/exit:sync-lister-yields-the-scan-in-order-then-stops-and-wraps-os-errors", z3.BoolVal(s == want), info=T18)
+    if any(x == ("timeout",) for x in a):
+        ok = it.unbox(S.vars["timeout"]) is not None and a[: len(a) - 1] == want[: len(a) - 1] and res["async"][0][-1][1].cls is pio
+        ctx.check(f"{name}/exit:an-expired-path_timeout-is-a-PathIOError", z3.BoolVal(bool(ok)), info=T18)
+        return
+    ctx.check(f"{name}/exit:async-lister-yields-the-same-as-the-sync-one", z3.BoolVal(a == s), info=T18)
+    ctx.check(f"{name}/exit:same-file-system-calls", z3.BoolVal(res["sync"][1] == res["async"][1] and res["sync"][1][:1] == [("glob", ("*",))]), info=T18)
+
+
+c = contract(PATHIO, "PathIO.list", props=["C18"], name="PathIO-vs-AsyncPathIO.list")
+c.setup = setup_lister
+c.raises = {"BaseException": []}
+c.exit_hook = lister_exit
+c.assumptions.append("B-scan: the first two steps of the directory scan (entry / exhausted / OS error each); T-aio run_in_executor as for the other methods")
